@@ -234,10 +234,13 @@ CHECKS = {
         text="Pdt/Props/C07.lean: union_all_rows / union_all_count (all rows with multiplicity), union_visible (left names and order, ungrouped), union_by_name "
              "(matched by name, not position), union_no_hidden (a result row holds exactly the left visible identities), eraseDups_nodup and union_distinct_rows "
              "(each distinct row once, same row set; nulls equal), union_refused (backend / grouping / differing names refused with the documented error, in the "
-             "code's order), union_scope. Oracle: frames of Polars / SQLite vs Spec.run on programs with permuted column orders, hidden columns, duplicates within "
+             "code's order), union_scope, union_cols_plain (the result's columns are ordinary non-constant element-wise columns). Pdt/Props/C07Sql.lean: "
+             "sql_refines_spec_union (for two pipelines of the row-level fragment with distinct visible names on each side and the same name set, every database "
+             "and needed_cols state, the compiler succeeds and SELECT ... FROM (left UNION [ALL] right re-selected by name) evaluates to exactly the frame of the "
+             "reference semantics, with and without distinct). Oracle: frames of Polars / SQLite vs Spec.run on programs with permuted column orders, hidden columns, duplicates within "
              "and across sides, nullable columns, empty sides, chained unions and verbs before / after.",
         design_ref="DESIGN.md section 5, C07",
-        note=NOTE_COMMON + "D23 was repaired in /repo. Known findings by trigger: D26, D32, D38, D40, D45.",
+        note=NOTE_COMMON + "D23 and D73 were repaired in /repo. Known findings by trigger: D26, D32, D38, D40, D45.",
     ),
     "C15": dict(
         technique="Lean 4 proof: theorems that both sides of each documented equivalence have the same meaning in the reference semantics; Spec tied to the "
@@ -262,10 +265,11 @@ CHECKS = {
              "cast_null. Type side (decide +kernel over every signature of the regenerated catalogue): bool_valued_ops, family_preserving_ops (only widening: "
              "bool + bool -> int), float_valued_ops, int_valued_ops, sum_sigs, string_valued_ops. Oracle on the real code: dtype() of every visible column vs the "
              "exported Polars schema (exact on Polars, numeric family on SQLite), only all-null columns Null-typed, Table(exported frame) and collect() reproduce "
-             "the types. Partial: expression-level soundness is assembled from these lemmas through the typing correspondence rather than proved as one induction; "
-             "temporal / decimal / list columns are outside the generated programs.",
+             "the types; a typed operator grid (harness/c12grid.py: every operator signature x every column dtype incl. date / datetime, constants of both "
+             "signs) compares dtype() with the exported dtype on Polars and SQLite. Partial: expression-level soundness is assembled from these lemmas "
+             "through the typing correspondence rather than proved as one induction; temporal columns occur in the grid only, decimal / list columns nowhere.",
         design_ref="DESIGN.md section 5, C12",
-        note=NOTE_COMMON + "D60 (Bool expression exported as Int64 from SQLite) was repaired in /repo.",
+        note=NOTE_COMMON + "D60 (Bool expression exported as Int64 from SQLite) was repaired in /repo; D75 - D78 (grid) are known findings.",
     ),
     "C10": dict(
         technique="Lean 4 proof: frame theorem over a heap model of the copy-then-rebind discipline of preprocess_arg / map_children, tied to the code by "
